@@ -24,7 +24,10 @@ def _scenario(seed, workdir):
     class RecSim(FileSim):
         def __init__(self, path):
             self._path = path
+            self._pipes = []
             simdaemon.Sim.__init__(self, [], check_delay=0.5, record_state=True, config_file=path)
+            if hasattr(self, "_on_popen"):
+                self.kernel.on_popen = self._on_popen
 
     rng = random.Random(seed)
     pool = ["a", "b", "c", "x-y"]
